@@ -231,7 +231,29 @@ pub fn run(thorough: bool) -> i32 {
             rep.add(Violation { key: k, what: w, case: json!({"check": "sender", "case": {"b": b, "e": e, "l": l}}) });
         }
     }
-    rep.cov("evaluations", evals + nb + ns);
+    // both ends on real sessions with object-level Raptor(Q) OTIs
+    let mut acases = Vec::new();
+    for scheme in [Scheme::RaptorQ, Scheme::Raptor] {
+        for sess_kind in 0..3u8 {
+            for (b, e) in [(2u16, 4u16), (3, 2), (4, 4), (5, 2), (8, 1)] {
+                if scheme == Scheme::Raptor && b < 4 {
+                    continue;
+                }
+                for l in 1..=(if thorough { 9 } else { 5 }) * b as usize * e as usize + 1 {
+                    acases.push((scheme, sess_kind, b, e, l));
+                }
+            }
+        }
+    }
+    let na = acases.len() as u64;
+    let ares = par_map(&acases, |_, (sc, sk, b, e, l)| sender_receiver_agree(*sc, *sk, *b, *e, *l));
+    for ((sc, sk, b, e, l), r) in acases.iter().zip(ares) {
+        if let Some((k, w)) = r {
+            rep.add(Violation { key: k, what: w, case: json!({"check": "agree", "case": {"scheme": sc, "sess_kind": sk, "b": b, "e": e, "l": l}}) });
+        }
+    }
+    rep.cov("sender_receiver_agreement_sessions", na);
+    rep.cov("evaluations", evals + nb + ns + na);
     rep.cov("distinct_nontrivial", multi);
     rep.cov("rule", format!("every (B,E,L) with B<={} E<={} L<={} plus the full boundary grid (B up to 2^32-1, E up to 65535, L up to 2^48-1) evaluated on the real block_partitioning/block_length against a u128 RFC 5052 reference, every sbn of every triple; RaptorQ/Raptor B reconstructed by the real EXT_FTI builder+parser; sender packet structure on B<=5,E<=4. Non-trivial = more than one block with unequal sizes; all triples distinct by construction", bm, em, lm));
     rep.cov("exhaustive", true);
@@ -386,7 +408,82 @@ fn sender_structure(b: u16, e: u16, l: usize) -> Option<(String, String)> {
     None
 }
 
+
+/// Both ends on a real session: an object with its OWN Raptor(Q) OTI in a session whose default OTI is
+/// another one. The block structure on the wire must be the reference partition of the object's
+/// (B, E, L), and the partition the receiver derives from the in-band EXT_FTI of the object's packets
+/// (parsed by flute's own parser) must be the same.
+fn sender_receiver_agree(scheme: Scheme, sess_kind: u8, b: u16, e: u16, l: usize) -> Option<(String, String)> {
+    let mut o = ObjSpec::simple(l, 4);
+    o.oti = Some(OtiSpec::new(scheme, e, b, 1, true));
+    let default = match sess_kind {
+        0 => OtiSpec::new(Scheme::NoCode, 1424, 64, 0, true),
+        1 => OtiSpec::new(scheme, e, b * 3 + 1, 1, true),
+        _ => OtiSpec::new(scheme, e * 2, b, 1, true),
+    };
+    let spec = crate::chan::RecSpec { sess: SessSpec::basic(default), objs: vec![o], polls_ms: vec![0] };
+    let rec = match catch(|| crate::chan::record(&spec)) {
+        Ok(Ok(r)) => r,
+        Ok(Err(_)) => return None, // refusals (Raptor blocks of 2-3 symbols ...) are C01's business
+        Err(p) => return Some((format!("C07/panic/{}", panic_sig(&p)), format!("sender {:?} B={} E={} L={} panicked: {}", scheme, b, e, l, p))),
+    };
+    if l == 0 {
+        return None;
+    }
+    let refp = rfc::partition(b as u128, l as u128, e as u128).unwrap();
+    let toi = rec.objs[0].0;
+    let mut per: std::collections::BTreeMap<u32, std::collections::BTreeSet<u32>> = Default::default();
+    for i in rec.obj_idx(toi) {
+        let k = refp.symbols_of(rec.info[i].sbn as u128) as u32;
+        if rec.info[i].esi < k.max(1) || refp.n <= rec.info[i].sbn as u128 {
+            per.entry(rec.info[i].sbn).or_default().insert(rec.info[i].esi);
+        }
+    }
+    let name = format!("{:?}", scheme);
+    if per.len() as u128 != refp.n {
+        return Some((format!("C07/sender-block-count/{}", name), format!("{} B={} E={} L={} (session default kind {}): {} blocks on the wire, reference {}", name, b, e, l, sess_kind, per.len(), refp.n)));
+    }
+    for (sbn, syms) in &per {
+        let k = refp.symbols_of(*sbn as u128) as usize;
+        if syms.len() != k {
+            return Some((format!("C07/sender-block-size/{}", name), format!("{} B={} E={} L={}: block {} has {} source symbols on the wire, reference {}", name, b, e, l, sbn, syms.len(), k)));
+        }
+    }
+    // the receiver's side, from the object's own packets
+    for i in rec.obj_idx(toi) {
+        let bytes = &rec.pkts[i].1;
+        let r = catch(|| {
+            let pkt = flute::core::alc::parse_alc_pkt(bytes).map_err(|e| e.0.to_string())?;
+            Ok::<_, String>(pkt.oti.clone().map(|o| (o.maximum_source_block_length as u64, o.encoding_symbol_length as u64, pkt.transfer_length)))
+        });
+        match r {
+            Err(p) => return Some((format!("C07/panic/{}", panic_sig(&p)), format!("parsing the sender's own packet panicked: {}", p))),
+            Ok(Err(er)) => return Some((format!("C07/sender-packet-rejected/{}", name), format!("{} B={} E={} L={}: flute rejects its sender's packet: {}", name, b, e, l, er))),
+            Ok(Ok(None)) => {}
+            Ok(Ok(Some((b2, e2, tl)))) => {
+                if tl != Some(l as u64) || e2 != e as u64 || b2 == 0 {
+                    return Some((format!("C07/sender-fti-fields/{}", name), format!("{} B={} E={} L={}: in-band FTI parsed as L={:?} E={} B'={}", name, b, e, l, tl, e2, b2)));
+                }
+                let got = block_partitioning(b2, l as u64, e as u64);
+                let same = got.3 as u128 == refp.n && got.0 as u128 == refp.a_large && got.1 as u128 == refp.a_small && (refp.a_large == refp.a_small || got.2 as u128 == refp.nb_large);
+                if !same {
+                    return Some((
+                        format!("C07/receiver-partition-differs-from-sender/{}", name),
+                        format!("{} B={} E={} L={} (session default kind {}): the sender cuts ({},{},{},{}) but its in-band FTI makes the receiver reconstruct B'={} and partition {:?}", name, b, e, l, sess_kind, refp.a_large, refp.a_small, refp.nb_large, refp.n, b2, got),
+                    ));
+                }
+            }
+        }
+    }
+    None
+}
+
 pub fn replay(v: &serde_json::Value) -> Vec<Violation> {
+    if v["check"] == "agree" {
+        let c = &v["case"];
+        let scheme: Scheme = serde_json::from_value(c["scheme"].clone()).expect("scheme");
+        return sender_receiver_agree(scheme, c["sess_kind"].as_u64().unwrap() as u8, c["b"].as_u64().unwrap() as u16, c["e"].as_u64().unwrap() as u16, c["l"].as_u64().unwrap() as usize).into_iter().map(|(key, what)| Violation { key, what, case: v.clone() }).collect();
+    }
     let c = &v["case"];
     let (b, e, l) = (c["b"].as_u64().unwrap(), c["e"].as_u64().unwrap(), c["l"].as_u64().unwrap());
     let mut out = Vec::new();
